@@ -29,7 +29,14 @@ type c13Case struct {
 	Nested bool     `json:"nested"`          // run from a nested working directory
 	Twin   bool     `json:"twin,omitempty"`  // a variable whose name differs only in letter case is defined too
 	Pos    string   `json:"pos,omitempty"`   // where the variable is declared: "" above every task, "between" the two tasks, "below" both
+	Spell  int      `json:"spell,omitempty"` // how the first reference is written (c13Spellings); 0 = {{.NAME}}
 }
+
+// c13Spellings: the same reference as the template language lets one write it. The last entry
+// ("novars" cases only) has no reference at all: template text that produces literal braces.
+var c13Spellings = []string{"{{.%s}}", "{{ .%s }}", "{{- .%s -}}", "{{$.%s}}", `{{printf "%%s" .%s}}`, "{{.%s | print}}", "{{with .%s}}{{.}}{{end}}"}
+
+func (c c13Case) ref() string { return fmt.Sprintf(c13Spellings[c.Spell], c.Name) }
 
 // Env, Names, String: names that coincide with plausible method names of whatever value the template engine is handed
 var c13Names = []string{"V", "HOME", "AMB", "DOT", "BOTH", "Env", "Names", "String"}
@@ -47,13 +54,22 @@ func shellSafe(v string) bool { return !strings.ContainsAny(v, "'\n\r()") }
 
 func (c c13Case) text() string {
 	var sb strings.Builder
+	if c.Kind == "novars" {
+		// no variable anywhere in the file: the command is still a template
+		return "task tmpl() {\n    echo {{\"{{\"}}.Names{{\"}}\"}} {{printf \"%s\" \"lit\"}} $UNTOUCHED {{/* gone */}}end\n}\n"
+	}
 	sb.WriteString(c.declText(""))
 	second := ""
 	if c.Second {
 		second = "{{.W}}"
 	}
 	if c.Pos == "" {
-		fmt.Fprintf(&sb, "\ntask tmpl() {\n    echo X{{.%s}}X literal $UNTOUCHED %s {{.%s}}\n}\n\n", c.Name, second, c.Name)
+		if c.Spell == 0 {
+			fmt.Fprintf(&sb, "\ntask tmpl() {\n    echo X{{.%s}}X literal $UNTOUCHED %s {{.%s}}\n}\n\n", c.Name, second, c.Name)
+		} else {
+			// no reference in the plain spelling anywhere in the command (unless W is there)
+			fmt.Fprintf(&sb, "\ntask tmpl() {\n    echo X%sX literal $UNTOUCHED %s Y%sY\n}\n\n", c.ref(), second, c.ref())
+		}
 	} else {
 		sb.WriteString("\ntask tmpl() {\n    echo nothing\n}\n\n")
 	}
@@ -173,6 +189,14 @@ func c13Cases(tier string) []c13Case {
 			c13Case{Name: n, Kind: "execraw", Cmd: `echo warning 1>&2; printf ' \n'`, Value: ""},
 			c13Case{Name: n, Kind: "execraw", Cmd: `echo out; echo warning 1>&2`, Value: "out"})
 	}
+	// the reference written in the other ways the template language has for it, and a file without
+	// any variable whose command is a template all the same
+	for sp := 1; sp < len(c13Spellings); sp++ {
+		for _, v := range []string{"plain", "in ner", "$x"} {
+			out = append(out, c13Case{Name: "V", Kind: "string", Value: v, Spell: sp}, c13Case{Name: "AMB", Kind: "string", Value: v, Spell: sp, Second: true})
+		}
+	}
+	out = append(out, c13Case{Name: "V", Kind: "novars"})
 	// exec output that is not plain text: terminal escape sequences, inner newlines, CRLF
 	out = append(out,
 		c13Case{Name: "V", Kind: "execraw", Cmd: `printf '\033[31mred\033[0m'`, Value: "\x1b[31mred\x1b[0m"},
@@ -202,6 +226,26 @@ func c13Run(root string, c c13Case) (obs []c13Obs, inv int) {
 	}
 	env := []string{"AMB=ambientvalue", "BOTH=ambboth", "UNTOUCHED=u"}
 	cwd := proj
+	if c.Kind == "novars" {
+		var rep []struct {
+			Results []struct {
+				Cmd    string `json:"cmd"`
+				Stdout string `json:"stdout"`
+			} `json:"results"`
+		}
+		o := bin.Run(cwd, home, env, "tmpl", "--json")
+		inv++
+		const wantCmd = "echo {{.Names}} lit $UNTOUCHED end"
+		switch {
+		case o.Exit != 0 || o.Died() || json.Unmarshal([]byte(o.Stdout), &rep) != nil || len(rep) != 1 || len(rep[0].Results) != 1:
+			obs = append(obs, c13Obs{"unexpected-failure", fmt.Sprintf("tmpl --json in a file without variables: exit=%d stdout=%q stderr=%s", o.Exit, clip(o.Stdout), firstLines(o.Stderr, 3))})
+		case rep[0].Results[0].Cmd != wantCmd:
+			obs = append(obs, c13Obs{"template-substitution", fmt.Sprintf("file without variables: command text is %q, the template gives %q", rep[0].Results[0].Cmd, wantCmd)})
+		case rep[0].Results[0].Stdout != "{{.Names}} lit u end\n":
+			obs = append(obs, c13Obs{"template-substitution", fmt.Sprintf("file without variables: the command printed %q, not %q", rep[0].Results[0].Stdout, "{{.Names}} lit u end\n")})
+		}
+		return
+	}
 	if c.Nested {
 		cwd = filepath.Join(proj, "nest", "deeper")
 	}
@@ -328,6 +372,9 @@ func c13Run(root string, c c13Case) (obs []c13Obs, inv int) {
 				second = "second"
 			}
 			wantCmd := fmt.Sprintf("echo X%sX literal $UNTOUCHED %s %s", want, second, want)
+			if c.Spell != 0 {
+				wantCmd = fmt.Sprintf("echo X%sX literal $UNTOUCHED %s Y%sY", want, second, want)
+			}
 			if rep[0].Results[0].Cmd != wantCmd {
 				obs = append(obs, c13Obs{"template-substitution", fmt.Sprintf("command text is %q, textual substitution gives %q", rep[0].Results[0].Cmd, wantCmd)})
 			}
